@@ -124,6 +124,8 @@ def gen_case(rng):
             st["member_labels"] = list(range(1, members + 1))
         else:
             st["member_labels"] = sorted(rng.sample(range(0, 30), members))
+    if (thresholds or quantiles or members) and rng.random() < 0.4:
+        st["header_spelling"] = True      # p1e1, p+2, q.5, q9e-1, e+1, e01 ...: the numeric part in another spelling
     inp["style"] = st
     ccls = rng.choice(["none", "text", "bare", "nospace"])
     return {"inp": inp, "comment_class": ccls, "sparse": sparse}
@@ -191,6 +193,8 @@ def run_case(case, ctx):
     ctx.count("metadata_lines:" + move_metadata(path, random.Random("meta" + str(sorted(inp["cells"]))[:200])))
     case = dict(case, text=open(path).read()[:6000])
     cols = st["cols"]
+    if st.get("header_as_written") and st["header_as_written"] != cols:
+        ctx.count("files_with_respelled_numeric_headers")
     feats = sum([st["shuffle_cols"], st["shuffle_rows"], case["sparse"] > 0,
                  bool(inp["thresholds"] or inp["quantiles"] or inp["members"] or inp["others"] or "pit" in inp["has"])])
     ctx.case("%s|sp%s|tok%d|%s" % ("+".join(sorted(cols)), case["sparse"], len(st["tokens"]), case["comment_class"]), feats >= 2,
